@@ -184,7 +184,7 @@ def borrower_getData(it, comp, args, kwargs, line):
     ctx = it.ctx
     name = args[0]
     key = pair_key(name, comp)
-    gcount(ctx, 'borrow_n', key)
+    gcount(ctx, 'borrow_n', kenc(name))
     exp = ctx.ghost.get('opt_genTexts')
     if exp is not None:
         ctx.oblige('compiler.compile.borrower_gets_genTexts', lift(kwargs.get('genTexts')) == lift(exp), line,
@@ -241,7 +241,7 @@ GHOST_BY_METHOD = {
 
 
 def sp_ghost(it, args, kwargs):
-    if args[0] == 'puts_total' or args[0].startswith('h_') or args[0].startswith('opt_'):
+    if args[0] == 'puts_total' or args[0].startswith('h_') or args[0].startswith('opt_') or args[0].startswith('cb_'):
         return it.ctx.ghost.get(args[0], 0)
     return gmap(it.ctx, args[0])
 
